@@ -971,6 +971,9 @@ func (f *framer) parsePreparedMetadata() preparedMetadata {
 		pkeys := make([]int, pkeyCount)
 		for i := 0; i < pkeyCount; i++ {
 			pkeys[i] = int(f.readShort())
+			if pkeys[i] >= meta.colCount {
+				panic(fmt.Errorf("received primary key index %d for %d columns", pkeys[i], meta.colCount))
+			}
 		}
 		meta.pkeyColumns = pkeys
 	}
